@@ -61,6 +61,7 @@ def gen_config(rng, max_vars, rep_choices, allow_none_name=False):
         "partial_folder": rng.choice(["partial_results", "partial_results", "partial_results", "pr", None]),
         "delete_partials": rng.random() < 0.3,
         "buffer": rng.choice([8192, 8192, 8192, 1, 64, None]),
+        "progress": rng.choice([None, None, None, "text1", "text2"]),
     }
 
 
@@ -502,7 +503,7 @@ def shrink(plan):
             yield c
     # cosmetics
     for key, simple in (("ext", ""), ("partial_folder", "partial_results"), ("delete_partials", False),
-                        ("buffer", 8192), ("results_name", "res")):
+                        ("buffer", 8192), ("results_name", "res"), ("progress", None)):
         if cfg.get(key) != simple and not (key == "results_name" and cfg.get(key) is None):
             c = P()
             c["config"][key] = simple
